@@ -23,6 +23,9 @@ import (
 //go:embed testkeys/keys.pem
 var keysPEM []byte
 
+//go:embed testkeys/chains.pem
+var chainsPEM []byte
+
 // Kind is one of the six FDO key kinds the library supports.
 type Kind struct {
 	Name    string
@@ -53,9 +56,10 @@ func KindByName(n string) Kind {
 }
 
 var (
-	poolOnce sync.Once
-	pool     map[string]crypto.Signer
-	certs    sync.Map // name -> []*x509.Certificate
+	poolOnce   sync.Once
+	chainsOnce sync.Once
+	pool       map[string]crypto.Signer
+	certs      sync.Map // name -> []*x509.Certificate
 )
 
 // Key returns the fixed test key "<family>/<role>", e.g. "p256/own1".
@@ -85,6 +89,24 @@ func Key(name string) crypto.Signer {
 
 // Chain returns a (cached) self-signed one-certificate chain for a pool key.
 func Chain(name string) []*x509.Certificate {
+	if c, ok := certs.Load(name); ok {
+		return c.([]*x509.Certificate)
+	}
+	// fixed certificates (so that every run generates the same bytes); created on the fly only for
+	// a key that has none
+	chainsOnce.Do(func() {
+		rest := chainsPEM
+		for {
+			var blk *pem.Block
+			blk, rest = pem.Decode(rest)
+			if blk == nil {
+				break
+			}
+			if cert, err := x509.ParseCertificate(blk.Bytes); err == nil {
+				certs.Store(blk.Headers["Name"], []*x509.Certificate{cert})
+			}
+		}
+	})
 	if c, ok := certs.Load(name); ok {
 		return c.([]*x509.Certificate)
 	}
